@@ -62,3 +62,28 @@ Theorem C16_driver_junit_one_case_per_file :
     fst (fst (junit_totals (results st))) = length (c_files cf).
 Proof. exact driver_junit_one_case_per_file. Qed.
 Print Assumptions C16_driver_junit_one_case_per_file.
+
+(* ---- the serial driver (Serial.v: run_serial, the files one after the other; Ctrl-C may arrive before any file or while one runs) *)
+From SLT Require Import Serial SerialProofs.
+
+Theorem C16_serial_results_consistent :
+  forall ff files sched, let st := srun ff (sst0 files) sched in consistent ff (s_ctrlc st) false (s_reported st).
+Proof. exact serial_results_consistent. Qed.
+Print Assumptions C16_serial_results_consistent.
+
+Theorem C16_serial_exit :
+  forall ff files sched, let st := srun ff (sst0 files) sched in
+    (sexit st = 0 <-> all_ok (s_reported st) /\ s_ctrlc st = false).
+Proof. exact serial_exit_truth. Qed.
+Print Assumptions C16_serial_exit.
+
+Theorem C16_serial_every_file_reported_once :
+  forall ff files sched, let st := srun ff (sst0 files) sched in s_todo st = [] -> length (s_reported st) = length files.
+Proof. exact serial_every_file_reported_once. Qed.
+Print Assumptions C16_serial_every_file_reported_once.
+
+(* without Ctrl-C: each file passes or fails on its own until a failure cancels (fail-fast, or a refused connection); the rest is skipped *)
+Theorem C16_serial_plain_results :
+  forall ff files, s_reported (srun ff (sst0 files) (plain_schedule files)) = plain_results ff false files.
+Proof. exact serial_plain_results. Qed.
+Print Assumptions C16_serial_plain_results.
